@@ -1,5 +1,5 @@
 """C17 Inactivity shutdown needs all parties idle at once and cannot deadlock."""
-from mirlib import AnchorMissing, describe_operand, describe_rvalue, dom_guards, guards, _suffix_match
+from mirlib import op_place, AnchorMissing, describe_operand, describe_rvalue, dom_guards, guards, _suffix_match
 from rules.common import aggregates, callers_by_name, calls_on_field, owner_def, where
 
 META = {
@@ -241,9 +241,43 @@ def run(ctx):
                     sites.append((b, c))
         if len(sites) < 9:
             raise AnchorMissing("expected >= 9 vote()/rescind() call sites in the agent and downlink tasks, found %d" % len(sites))
+        def const_bool_locals(b):
+            """bool locals that are only ever assigned the literals true / false: the task's own bookkeeping flags (whatever they are called)"""
+            out = {}
+            for loc, ds in b.defs.items():
+                if loc < len(b.locals) and b.locals[loc] == "bool" and ds and all(d[0] == "assign" and d[3][0] == "use" and d[3][1][0] == "k" and d[3][1][1].get("b") in (True, False) for d in ds):
+                    vals = {d[3][1][1].get("b") for d in ds}
+                    if vals == {True, False}:
+                        out[loc] = ds
+            return out
+
+        def voted_flags(b):
+            """the flag(s) recording 'I have voted': a constant-only bool whose true edge guards a rescind() call; if the body never rescinds, one that is
+            set to true next to a vote()"""
+            flags = const_bool_locals(b)
+            vl = set()
+            for c in b.calls:
+                if c.is_method(V, "rescind"):
+                    for d, l, sb in guards(b, c.block):
+                        if l != "true":
+                            continue
+                        pl = op_place(b.term(sb)["discr"])
+                        if pl is None:
+                            continue
+                        root = b.copy_root(pl)
+                        if root in flags:
+                            vl.add(root)
+            if not vl:
+                for c in b.calls:
+                    if c.is_method(V, "vote"):
+                        for loc, ds in flags.items():
+                            if any(d[3][1][1].get("b") is True and (b.dominates(d[1], c.block) or b.dominates(c.block, d[1])) for d in ds):
+                                vl.add(loc)
+            return vl
         for b, c in sites:
             ctx.saw(b)
             tag = "%s/%s@%s" % (owner_def(b).replace("swimos_runtime::", ""), c.name, "")
+            vl = voted_flags(b)
             # result compared with VoteResult::Unanimous (== / != idiom) or matched on (match idiom)
             tr = fa = None
             for e in b.calls:
@@ -276,16 +310,14 @@ def run(ctx):
                     "on Unanimous the task keeps running: it can dispatch work after the runtime decided to stop")
             if c.name == "rescind":
                 g = guards(b, c.block)
-                r.check(any(d.split(".")[-1] in ("voted",) or d == "voted" for d, l, _ in g if l == "true"), tag + "rescind-only-if-voted", c.loc(), "rescind() is called on the voted == true edge",
+                r.check(any(l == "true" and op_place(b.term(sb)["discr"]) is not None and b.copy_root(op_place(b.term(sb)["discr"])) in vl for d, l, sb in g), tag + "rescind-only-if-voted", c.loc(), "rescind() is called on the true edge of the task's voted flag",
                         "rescind() called without having voted: %s" % [(d, l) for d, l, _ in g][:4])
                 # pending edge: voted := false before coming back
-                vl = set(b.var_locals("voted"))
                 clr = {i for i, j, p, rv, line in b.assigns() if p[0] in vl and not p[1] and rv[0] == "use" and rv[1][0] == "k" and rv[1][1].get("b") is False}
                 ok, wit = b.must_pass([fa], clr, targets={c.block} | set(b.exits()))
                 r.check(ok and bool(clr), tag + "pending=>voted:=false", c.loc(), "after a successful rescind the task's voted flag is cleared before the next iteration",
                         "voted stays true after rescind: %s" % wit)
             else:
-                vl = set(b.var_locals("voted"))
                 st = {i for i, j, p, rv, line in b.assigns() if p[0] in vl and not p[1] and rv[0] == "use" and rv[1][0] == "k" and rv[1][1].get("b") is True}
                 r.check(any(b.dominates(i, c.block) or b.dominates(c.block, i) for i in st), tag + "vote=>voted:=true", c.loc(), "the task records voted = true around vote()", "vote() without recording voted = true")
 
